@@ -54,6 +54,8 @@ class C20(Prop):
                 items = [[q + 1, p[q]] for q in range(n) if p[q] != 0]
                 rng.shuffle(items)
                 yield {"k": "parsedict", "n": n, "items": items}
+        for L in (1, 5, 50, 100, 101, 150):
+            yield {"k": "listrepr", "ops": [[rng.randrange(4) for _ in range(3)] + [rng.randrange(4)] for _ in range(L)]}
         # registers across the 64-bit word boundary
         for n in (63, 64, 65, 70, 130):
             for t in range(4):
@@ -122,6 +124,9 @@ class C20(Prop):
                 txt = repr(x)
                 rec["text"] = text_tokens(txt)
                 rec["back"] = be.p_pauli(P.pauli(txt))
+            elif k == "listrepr":
+                rec["ops"] = scn["ops"]
+                rec["lines"] = [text_tokens(ln) for ln in repr(be.plist(scn["ops"])).split("\n")]
             elif k == "tokenize":
                 rec["p"] = scn["p"]
                 x = be.pauli(scn["p"])
